@@ -164,3 +164,159 @@ pub proof fn lemma_fs_delegate(w: World, acct: Address, d: Address)
     lemma_fs_move(w3, v_delegatee(w, acct), Some(d), v_units(w3, acct));
     lemma_fs_trans(w, w3, delegate_post(w, acct, d));
 }
+
+// ---- the votes view is untouched by token writes ----
+pub open spec fn votes_same(w: World, w2: World) -> bool {
+    &&& w2.ledger_seq == w.ledger_seq
+    &&& forall|k: VotesStorageKey| #[trigger] pget(w2, k) == pget(w, k)
+    &&& forall|k: VotesStorageKey| #[trigger] iget(w2, k) == iget(w, k)
+    &&& sum_units(w2) == sum_units(w)
+    &&& forall|d: Address| #[trigger] sum_deleg(w2, d) == sum_deleg(w, d)
+}
+pub proof fn lemma_vs_trans(w: World, w1: World, w2: World)
+    requires votes_same(w, w1), votes_same(w1, w2),
+    ensures votes_same(w, w2),
+{
+    assert forall|k: VotesStorageKey| #[trigger] pget(w2, k) == pget(w, k) by { assert(pget(w1, k) == pget(w, k)); }
+    assert forall|k: VotesStorageKey| #[trigger] iget(w2, k) == iget(w, k) by { assert(iget(w1, k) == iget(w, k)); }
+    assert forall|d: Address| #[trigger] sum_deleg(w2, d) == sum_deleg(w, d) by { assert(sum_deleg(w1, d) == sum_deleg(w, d)); }
+}
+pub proof fn lemma_vs_nostore(w: World, w2: World)
+    requires w2.persistent == w.persistent, w2.instance == w.instance, w2.ledger_seq == w.ledger_seq,
+    ensures votes_same(w, w2),
+{}
+pub proof fn lemma_vs_set_bal(w: World, a: Address, v: int)
+    ensures votes_same(w, set_bal(w, a, v)), votes_same(w, set_supply(w, v)),
+{
+    let w2 = set_bal(w, a, v);
+    let x = SV::I128(v as i128);
+    assert forall|k: VotesStorageKey| #[trigger] pget(w2, k) == pget(w, k) by { lemma_fung_key_not_votes(a, k); }
+    assert forall|k: VotesStorageKey| #[trigger] iget(set_supply(w, v), k) == iget(w, k) by { lemma_fung_key_not_votes(a, k); }
+    lemma_fung_key_not_votes(a, VotesStorageKey::NumTotalSupplyCheckpoints);
+    lemma_m_write_other(w.persistent, bal_key(a), x, a);
+    assert forall|d: Address| #[trigger] sum_deleg(w2, d) == sum_deleg(w, d) by { lemma_m_write_other(w.persistent, bal_key(a), x, d); }
+}
+pub proof fn lemma_vs_update(w: World, from_a: Option<Address>, to_a: Option<Address>, amount: int)
+    ensures votes_same(w, update_post(w, from_a, to_a, amount)),
+{
+    let w1 = match from_a {
+        Some(a) => set_bal(w, a, bal(w, a) - amount),
+        None => set_supply(w, supply(w) + amount),
+    };
+    match from_a {
+        Some(a) => { lemma_vs_set_bal(w, a, bal(w, a) - amount); }
+        None => { lemma_vs_set_bal(w, a0(), supply(w) + amount); }
+    }
+    match to_a {
+        Some(a) => { lemma_vs_set_bal(w1, a, bal(w1, a) + amount); }
+        None => { lemma_vs_set_bal(w1, a0(), supply(w1) - amount); }
+    }
+    lemma_vs_trans(w, w1, update_post(w, from_a, to_a, amount));
+}
+pub proof fn lemma_vs_op(w: World, op: FOp)
+    requires op_guard(w, op), w.ledger_ok(),
+    ensures votes_same(w, op_post(w, op)),
+{
+    lemma_op_shape(w, op);
+    lemma_op_pre(w, op);
+    let w1 = op_pre(w, op);
+    lemma_vs_nostore(w, w1);
+    if is_approve(op) {
+        lemma_vs_nostore(w, op_post(w, op));
+    } else {
+        let w2 = update_post(w1, op_from(op), op_to(op), op_amount(op));
+        lemma_vs_update(w1, op_from(op), op_to(op), op_amount(op));
+        lemma_vs_trans(w, w1, w2);
+        lemma_vs_nostore(w2, op_post(w, op));
+        lemma_vs_trans(w, w2, op_post(w, op));
+    }
+}
+/// inv_v and every observable of the votes view carry over
+pub proof fn lemma_vs_inv(w: World, w2: World)
+    requires votes_same(w, w2),
+    ensures inv_v(w) ==> inv_v(w2),
+        forall|a: Address| #[trigger] v_units(w2, a) == v_units(w, a),
+        forall|a: Address| #[trigger] v_delegatee(w2, a) == v_delegatee(w, a),
+        forall|t: CheckpointType| #[trigger] cp_latest(w2, t) == cp_latest(w, t),
+        forall|t: CheckpointType, q: u32| #[trigger] past_value(w2, t, q) == past_value(w, t, q),
+{
+    assert forall|a: Address| #[trigger] v_units(w2, a) == v_units(w, a) by { assert(pget(w2, VotesStorageKey::VotingUnits(a)) == pget(w, VotesStorageKey::VotingUnits(a))); }
+    assert forall|a: Address| #[trigger] v_delegatee(w2, a) == v_delegatee(w, a) by { assert(pget(w2, VotesStorageKey::Delegatee(a)) == pget(w, VotesStorageKey::Delegatee(a))); }
+    assert forall|t: CheckpointType| true implies #[trigger] same_timeline(w, w2, t) by {
+        assert forall|i: u32| #[trigger] cp_at(w2, t, i) == cp_at(w, t, i) by { assert(pget(w2, cp_key(t, i)) == pget(w, cp_key(t, i))); }
+        match t {
+            CheckpointType::TotalSupply => { assert(iget(w2, VotesStorageKey::NumTotalSupplyCheckpoints) == iget(w, VotesStorageKey::NumTotalSupplyCheckpoints)); }
+            CheckpointType::Account(a) => { assert(pget(w2, VotesStorageKey::NumCheckpoints(a)) == pget(w, VotesStorageKey::NumCheckpoints(a))); }
+        }
+    }
+    assert forall|t: CheckpointType| #[trigger] cp_latest(w2, t) == cp_latest(w, t) by { assert(same_timeline(w, w2, t)); lemma_timeline_frame(w, w2, t); }
+    assert forall|t: CheckpointType, q: u32| #[trigger] past_value(w2, t, q) == past_value(w, t, q) by { assert(same_timeline(w, w2, t)); lemma_timeline_frame(w, w2, t); }
+    if inv_v(w) {
+        assert forall|t: CheckpointType| #[trigger] seq_ok(w2, t) by { assert(seq_ok(w, t)); assert(same_timeline(w, w2, t)); lemma_timeline_frame(w, w2, t); }
+        assert forall|d: Address| #[trigger] cp_latest(w2, t_acct(d)) as int == sum_deleg(w2, d) by {
+            assert(cp_latest(w, t_acct(d)) as int == sum_deleg(w, d));
+            assert(cp_latest(w2, t_acct(d)) == cp_latest(w, t_acct(d)));
+        }
+        assert(cp_latest(w2, t_total()) == cp_latest(w, t_total()));
+    }
+}
+
+// ---- the joint invariant: voting units == token balance ----
+pub open spec fn units_eq_bal(w: World) -> bool { forall|a: Address| #[trigger] v_units(w, a) as int == bal(w, a) }
+pub open spec fn inv_fv(w: World) -> bool { inv(w) && inv_ev(w) && inv_v(w) && units_eq_bal(w) && w.ledger_ok() }
+
+/// every FungibleVotes token operation keeps the joint invariant (C13: "each account's voting
+/// units equal its token balance"), and never changes an answer about a past ledger
+pub proof fn lemma_fv_op(w: World, op: FOp)
+    requires inv_fv(w), fv_guard(w, op),
+    ensures
+        //@@ C13:lemma.fv_units_equal_balance
+        inv_fv(fv_post(w, op)),
+        //@@ C13:lemma.fv_keeps_past
+        forall|t: CheckpointType, q: u32| q < w.ledger_seq ==> #[trigger] past_value(fv_post(w, op), t, q) == past_value(w, t, q),
+        //@@ C13:lemma.fv_keeps_delegations
+        forall|a: Address| #[trigger] v_delegatee(fv_post(w, op), a) == v_delegatee(w, a),
+        fv_post(w, op).same_ledger(w),
+{
+    let w1 = op_post(w, op);
+    let w2 = fv_post(w, op);
+    lemma_op_c01(w, op);
+    lemma_vs_op(w, op);
+    lemma_vs_inv(w, w1);
+    if fv_units_moved(op) {
+        let (f, t, amt) = (op_from(op), op_to(op), op_amount(op) as u128);
+        lemma_xfer_inv(w1, f, t, amt);
+        lemma_fs_xfer(w1, f, t, amt);
+        lemma_fs_inv(w1, w2);
+        lemma_fs_views(w1, w2);
+        assert forall|a: Address| #[trigger] v_units(w2, a) as int == bal(w2, a) by {
+            assert(v_units(w2, a) as int == v_units(w1, a) + xfer_units_delta(f, t, amt, a));
+            assert(v_units(w1, a) == v_units(w, a));
+            assert(bal(w1, a) == bal(w, a) + upd_delta(f, t, op_amount(op), a));
+            assert(bal(w2, a) == bal(w1, a));
+        }
+        assert forall|t2: CheckpointType, q: u32| q < w.ledger_seq implies #[trigger] past_value(w2, t2, q) == past_value(w, t2, q) by {
+            assert(past_value(w1, t2, q) == past_value(w, t2, q));
+        }
+        assert forall|a: Address| #[trigger] v_delegatee(w2, a) == v_delegatee(w, a) by { assert(v_delegatee(w1, a) == v_delegatee(w, a)); }
+    } else {
+        assert forall|a: Address| #[trigger] v_units(w2, a) as int == bal(w2, a) by {
+            assert(v_units(w1, a) == v_units(w, a));
+            assert(bal(w1, a) == bal(w, a) + upd_delta(op_from(op), op_to(op), op_amount(op), a));
+        }
+    }
+}
+/// `delegate` on a votes token keeps the joint invariant
+pub proof fn lemma_fv_delegate(w: World, acct: Address, d: Address)
+    requires inv_fv(w), delegate_guard(w, acct, d),
+    ensures
+        //@@ C13:lemma.fv_delegate_inv
+        inv_fv(delegate_post(w, acct, d)),
+{
+    let w2 = delegate_post(w, acct, d);
+    lemma_delegate_inv(w, acct, d);
+    lemma_fs_delegate(w, acct, d);
+    lemma_fs_inv(w, w2);
+    lemma_fs_views(w, w2);
+    assert forall|a: Address| #[trigger] v_units(w2, a) as int == bal(w2, a) by { assert(v_units(w2, a) == v_units(w, a)); assert(bal(w2, a) == bal(w, a)); }
+}
